@@ -23,6 +23,7 @@ import (
 	"errors"
 	"fmt"
 	"net/http"
+	"sync"
 	"time"
 
 	"github.com/nuts-foundation/go-did/did"
@@ -161,6 +162,10 @@ func validateS2SPresentationMaxValidity(presentation vc.VerifiablePresentation) 
 	return nil
 }
 
+// s2sNonceMutex makes sure concurrent token requests (of this node) can't both find the same presentation nonce unused:
+// looking up the nonce and marking it as used must be a single step.
+var s2sNonceMutex sync.Mutex
+
 // validateS2SPresentationNonce checks if the nonce has been used before; 'nonce' claim for JWTs or LDProof's 'nonce' for JSON-LD.
 func (r Wrapper) validateS2SPresentationNonce(presentation vc.VerifiablePresentation) error {
 	nonce, err := extractNonce(presentation)
@@ -171,6 +176,8 @@ func (r Wrapper) validateS2SPresentationNonce(presentation vc.VerifiablePresenta
 			Description:   "presentation has invalid/missing nonce",
 		}
 	}
+	s2sNonceMutex.Lock()
+	defer s2sNonceMutex.Unlock()
 	nonceError := r.s2sNonceStore().Get(nonce, new(bool))
 	if nonceError != nil && errors.Is(nonceError, storage.ErrNotFound) {
 		// this is OK, nonce has not been used before
